@@ -30,6 +30,11 @@ type gbInst struct {
 var gbNewMu sync.Mutex
 
 func newGB(romPath string, video, audio bool, withSerial bool) *gbInst {
+	return newGBCfg(romPath, video, audio, withSerial, false, false)
+}
+
+// newGBCfg: also the two debugging options of gameboy.Config (CPU trace to standard output, LCD debug picture).
+func newGBCfg(romPath string, video, audio bool, withSerial bool, debugCPU, debugLCD bool) *gbInst {
 	gbNewMu.Lock()
 	defer gbNewMu.Unlock()
 	g := &gbInst{}
@@ -41,7 +46,7 @@ func newGB(romPath string, video, audio bool, withSerial bool) *gbInst {
 		g.serial = &bytes.Buffer{}
 		w = g.serial
 	}
-	g.gb = gameboy.New(gameboy.Config{RomFilename: romPath, DisableVideoOutput: !video, DisableAudioOutput: !audio, SerialWriter: w})
+	g.gb = gameboy.New(gameboy.Config{RomFilename: romPath, DisableVideoOutput: !video, DisableAudioOutput: !audio, SerialWriter: w, DebugCPU: debugCPU, DebugLCD: debugLCD})
 	display.NewHook, speakers.NewHook = nil, nil
 	g.parts = g.gb.VParts()
 	g.m = &machine.M{I: g.parts.Interrupts, A: g.parts.Audio, P: g.parts.PPU, T: g.parts.Timer, C: g.parts.Controller, Map: g.parts.Mapper, CPU: g.parts.CPU, Serial: g.serial}
